@@ -510,6 +510,13 @@ func genC22(seed uint64, tier string) *Case {
 		c.Steps = append(c.Steps, Step{Op: "key", S: []string{"install", "install", "use", "remove"}[g.Intn(4)], K: g.Intn(6),
 			T: []string{"", "", "", "", "short", "long", "empty"}[g.Intn(7)]})
 	}
+	// (drawn after the steps so that earlier cases keep their shape) some requests meet a
+	// keyring file that cannot be written: its directory is gone for the duration
+	for i := range c.Steps {
+		if g.Bool(0.15) {
+			c.Steps[i].F = true
+		}
+	}
 	return c
 }
 
@@ -525,7 +532,10 @@ func execC22(r *Run) {
 		return
 	}
 	defer os.RemoveAll(dir)
-	file := filepath.Join(dir, "keyring.json")
+	conf := filepath.Join(dir, "conf")
+	os.Mkdir(conf, 0o700)
+	file := filepath.Join(conf, "keyring.json")
+	fileLags := false // a failed write left the file behind the keyring; the next write catches up
 	var initKeys [][]byte
 	for i := 0; i < int(r.C.P["init"]); i++ {
 		initKeys = append(initKeys, c22Key(i))
@@ -598,10 +608,36 @@ func execC22(r *Run) {
 		lt++
 		before := ringState()
 		fileBefore, _ := os.ReadFile(file)
+		// what the request would make of the keyring if it took effect (memberlist's keyring is
+		// not under test here, the handlers and the file are)
+		wouldBe := before
+		if s.F {
+			if twin, err := memberlist.NewKeyring(ring.GetKeys(), ring.GetPrimaryKey()); err == nil {
+				switch s.S {
+				case "install":
+					twin.AddKey(key)
+				case "use":
+					twin.UseKey(key)
+				case "remove":
+					twin.RemoveKey(key)
+				}
+				var ks []string
+				for _, k := range twin.GetKeys() {
+					ks = append(ks, base64.StdEncoding.EncodeToString(k))
+				}
+				sort.Strings(ks)
+				wouldBe = base64.StdEncoding.EncodeToString(twin.GetPrimaryKey()) + "|" + strings.Join(ks, ",")
+			}
+			os.Rename(conf, conf+".off")
+			r.Fault("keyring-file-unwritable")
+		}
 		p0 := len(c.Packets)
 		c.DeliverMsg(&Msg{To: 0, Buf: wEnc(mtQuery, &wQuery{LTime: lt, ID: uint32(100 + idx), Addr: net.ParseIP(origin.IP).To4(), Port: uint16(origin.Port), SourceNode: origin.Name,
 			Timeout: 5 * time.Second, Name: "_serf_" + s.S + "-key", Payload: encAny(mtKeyRequest, &wKeyRequest{Key: key})})})
 		c.Wait()
+		if s.F {
+			os.Rename(conf+".off", conf)
+		}
 		var res *wNodeKeyResponse
 		for _, sp := range sentSince(c, p0) {
 			if sp.to == origin.Addr() && len(sp.buf) > 0 && sp.buf[0] == mtQueryResponse {
@@ -624,6 +660,26 @@ func execC22(r *Run) {
 			r.Fail("key-request-unanswered", "C22 unanswered", "%s-key request got no reply", s.S)
 			return
 		}
+		if s.F && !res.Result {
+			// the write failed (or the request was invalid anyway): the request took effect in
+			// memory or it did not, nothing else may have happened to the keyring, and the file
+			// is as it was
+			if after != before && after != wouldBe {
+				r.Fail("failed-write-damaged-keyring", "C22 failed-write-ring", "%s-key of key#%d while the keyring file could not be written (%s): the keyring went from %s to %s, which is neither unchanged nor what the request asks for (%s)", s.S, s.K, res.Message, before, after, wouldBe)
+			}
+			if !bytes.Equal(fileBefore, fileAfter) {
+				r.Fail("failed-write-changed-file", "C22 failed-write-file", "%s-key failed (%s) while the directory of the keyring file was gone, yet the file changed", s.S, res.Message)
+			}
+			if loaded, err := reload(); err != nil || loaded != after {
+				fileLags = true
+				r.Probe("file-behind-keyring-after-failed-write")
+			}
+			r.State(after)
+			if r.Failed() {
+				return
+			}
+			continue
+		}
 		if !res.Result {
 			r.Fault("request-rejected")
 			if after != before {
@@ -632,6 +688,12 @@ func execC22(r *Run) {
 			if !bytes.Equal(fileBefore, fileAfter) {
 				r.Fail("rejected-request-changed-file", "C22 rejected-changed-file", "%s-key was rejected (%s) but the keyring file changed", s.S, res.Message)
 			}
+		}
+		if res.Result {
+			fileLags = false // every accepted request writes the whole keyring
+		}
+		if fileLags {
+			continue
 		}
 		loaded, err := reload()
 		if err != nil {
